@@ -60,7 +60,7 @@ macro_rules! accumulate {
 accumulate!(x08_accumulator_scalar_n64, x08_accumulator_array_n64, 64, 66);
 accumulate!(x08_accumulator_scalar_n65, x08_accumulator_array_n65, 65, 67);
 accumulate!(x08_accumulator_scalar_n129, x08_accumulator_array_n129, 129, 131);
-accumulate!(t08_accumulator_scalar_n1, t08_accumulator_array_n1, 1, 3);
+accumulate!(x08_accumulator_scalar_n1, x08_accumulator_array_n1, 1, 3);
 
 harness! {
     #[kani::unwind(12)]
@@ -72,5 +72,68 @@ harness! {
         assert!(rd31(inv) < 31);
         assert!(rd31(mk31(a) * inv) == 1);
         kani::cover!(true);
+    }
+}
+
+harness! {
+    #[kani::unwind(12)]
+    fn x08_batch_invert_fp31() {
+        // batch inversion agrees with element-wise inversion for every triple of non-zero elements
+        let raw: [u8; 3] = kani::any();
+        kani::assume(raw[0] >= 1 && raw[0] < 31 && raw[1] >= 1 && raw[1] < 31 && raw[2] >= 1 && raw[2] < 31);
+        let mut v = [mk31(raw[0]), mk31(raw[1]), mk31(raw[2])];
+        batch_invert(&mut v);
+        let k: usize = kani::any();
+        kani::assume(k < 3);
+        assert!(rd31(v[k] * mk31(raw[k])) == 1, "every output is the inverse of its input");
+        kani::cover!(true);
+    }
+}
+
+pub(crate) mod shares {
+    use super::*;
+    use crate::secret_sharing::replicated::semi_honest::AdditiveShare;
+    use crate::secret_sharing::replicated::ReplicatedSecretSharing;
+
+    harness! {
+        #[kani::unwind(7)]
+        fn q08_replicated_share_arithmetic_is_componentwise() {
+            // replicated-share arithmetic agrees with the plain field operations on both components
+            let r: [u32; 5] = kani::any();
+            let mut i = 0;
+            while i < 5 {
+                kani::assume(u128::from(r[i]) < P32);
+                i += 1;
+            }
+            let (a, b) = (AdditiveShare::new(mk32(r[0]), mk32(r[1])), AdditiveShare::new(mk32(r[2]), mk32(r[3])));
+            let c = mk32(r[4]);
+            let s = &a + &b;
+            assert!(rd32(s.left()) == rd32(mk32(r[0]) + mk32(r[2])) && rd32(s.right()) == rd32(mk32(r[1]) + mk32(r[3])));
+            let d = &a - &b;
+            assert!(rd32(d.left()) == rd32(mk32(r[0]) - mk32(r[2])) && rd32(d.right()) == rd32(mk32(r[1]) - mk32(r[3])));
+            let n = -&a;
+            assert!(rd32(n.left()) == rd32(-mk32(r[0])) && rd32(n.right()) == rd32(-mk32(r[1])));
+            let mut e = a.clone();
+            e += &b;
+            e -= &b;
+            assert!(rd32(e.left()) == r[0] && rd32(e.right()) == r[1]);
+            assert!(a.as_tuple() == (mk32(r[0]), mk32(r[1])));
+            let z = AdditiveShare::<Fp32BitPrime>::ZERO;
+            assert!(rd32(z.left()) == 0 && rd32(z.right()) == 0);
+            let _ = c;
+            kani::cover!(true);
+        }
+    }
+
+    harness! {
+        #[kani::unwind(4)]
+        fn q08_replicated_share_scalar_mul() {
+            let r: [u32; 3] = kani::any();
+            kani::assume(u128::from(r[0]) < P32 && u128::from(r[1]) < P32 && u128::from(r[2]) < (1 << 16));
+            let a = AdditiveShare::new(mk32(r[0]), mk32(r[1]));
+            let m = &a * mk32(r[2]);
+            assert!(rd32(m.left()) == rd32(mk32(r[0]) * mk32(r[2])) && rd32(m.right()) == rd32(mk32(r[1]) * mk32(r[2])), "share * scalar multiplies both components");
+            kani::cover!(true);
+        }
     }
 }
